@@ -38,6 +38,8 @@ def setup_repo_path() -> Path:
         for d in sorted(os.listdir(plug)):
             if d.startswith("fcp_") and (plug / d).is_dir():
                 entries.append(str(plug / d))
+    # the simulator's own third-party plug-in (a stub; see simfcp/plugins/fcp_simgen)
+    entries.append(str(VERIF_ROOT / "simfcp" / "plugins"))
     # drop any other copy of the repo (editable install .pth) from the path
     sys.path[:] = [p for p in sys.path if p not in entries]
     sys.path[0:0] = entries
@@ -48,6 +50,8 @@ def setup_repo_path() -> Path:
             if f and not f.startswith(str(root)):
                 raise RuntimeError(f"{name} already imported from {f}, not from {root}")
     _PATH_DONE = True
+    import logging
+    logging.disable(logging.CRITICAL)      # cantools / fcp log through the root logger; keep the check's output clean
     return root
 
 
